@@ -219,8 +219,11 @@ func expectedIndex(bs []datum.BucketCount, v float64) int {
 			return i
 		}
 	}
-	for i, b := range bs {
-		if math.IsInf(b.Range.Max, 1) {
+	// the +Inf bucket is the one that closes the list (a hand-built declaration
+	// whose last boundary is itself +Inf has two buckets ending at +Inf; program
+	// text cannot express that)
+	for i := len(bs) - 1; i >= 0; i-- {
+		if math.IsInf(bs[i].Range.Max, 1) {
 			return i
 		}
 	}
